@@ -331,7 +331,11 @@ def loop_runs() -> Any:
                 mins = {"cur": str(loc.minute), "next": str((loc.minute + 1) % 60), "next2": str((loc.minute + 2) % 60),
                         "any": "*", "even": "*/2", "pair": f"{loc.minute},{(loc.minute + 1) % 60}"}[mk]
                 es.append({"id": f"c{si}_{j}", "cron": mins + " " + rest, "offset": off, "add_at": 0, "remove_at": None})
-            sources.append({"kind": "scripted", "entries": es, "fail_polls": [], "list_latency": lat})
+            kind = "label" if d["label"] and si == 0 else "scripted"
+            if kind == "label":
+                for e in es:
+                    e.pop("add_at"), e.pop("remove_at")
+            sources.append({"kind": kind, "entries": es, "fail_polls": [], "list_latency": 0.0 if kind == "label" else lat})
         return {"loop": True, "base_us": base, "horizon_min": d["h"], "sources": sources, "latencies": [0.0], "kick_fail": []}
 
     ent = st.tuples(st.sampled_from(["cur", "next", "next", "next2", "any", "even", "pair"]), st.sampled_from(["* * * *", "* * * *", "*/1 * * *"]),
@@ -340,6 +344,8 @@ def loop_runs() -> Any:
     return st.fixed_dictionaries({
         "base": st.integers(clock.to_us(dtm.datetime(2024, 1, 1, tzinfo=clock.UTC)), clock.to_us(dtm.datetime(2026, 1, 1, tzinfo=clock.UTC))),
         "bsec": st.sampled_from([0.0, 30.0, 55.0, 57.5, 59.0, 59.9]), "h": st.integers(2, 3),
+        # the first source is the label-based one: all its entries are declared on ONE task, each with an offset of its own (or none)
+        "label": st.sampled_from([False, True]),
         "sources": st.lists(st.tuples(st.sampled_from([0.0, 0.0, 0.4, 3.0, 5.0, 61.0]), st.lists(ent, min_size=1, max_size=3)), min_size=1, max_size=2),
     }).map(fin)
 
@@ -371,8 +377,8 @@ def run_loop_case(case: Dict[str, Any]) -> Outcome:
             out.add("C13.a", f"pass {j}: listing started {clock.from_us(start).time().isoformat()} and completed {clock.from_us(ev).time().isoformat()} UTC; sent at that instant "
                              f"{[(i, ent[i]['cron'], ent[i]['offset']) for i in got]}, but the expressions matching that minute are {[(i, ent[i]['cron'], ent[i]['offset']) for i in want]}")
             break
-    out.nontrivial = crossed
-    out.classes = ["loop"] + (["listing_crossed_minute_boundary"] if crossed else []) + (["slow_source"] if any(s["list_latency"] for s in case["sources"]) else [])
+    out.nontrivial = crossed or any(s_["kind"] == "label" and len({repr(e["offset"]) for e in s_["entries"]}) > 1 for s_ in case["sources"])
+    out.classes = ["loop"] + (["label_source_mixed_offsets"] if any(s_["kind"] == "label" and len({repr(e["offset"]) for e in s_["entries"]}) > 1 for s_ in case["sources"]) else []) + (["listing_crossed_minute_boundary"] if crossed else []) + (["slow_source"] if any(s["list_latency"] for s in case["sources"]) else [])
     out.trace = {"kicks": [[k["tag"], k["t"] - case["base_us"]] for k in res["kicks"]][:12]}
     return out
 
